@@ -488,3 +488,14 @@ def close(a, b, rtol=1e-9, atol=1e-12):
     if a != a or b != b:
         return (a != a) and (b != b)
     return abs(a - b) <= atol + rtol * max(abs(a), abs(b))
+
+
+def fracf(t):
+    """float of an exact rational (a Fraction or its text): +-inf when it lies beyond the float range (a diverged fit on a
+    mutated library must become a verdict, not an OverflowError of the harness)"""
+    from fractions import Fraction as _F
+    q = t if isinstance(t, _F) else _F(t)
+    try:
+        return float(q)
+    except OverflowError:
+        return float('inf') if q > 0 else float('-inf')
